@@ -15,7 +15,8 @@ M = __name__
 # statements use fresh strings so that the terms encoded before the failing slot do assign entries
 STM = {
     1: [("T", alpha.I_AX, alpha.I_AY, alpha.L_PLAIN), ("T", ("iri", "http://n/s2"), ("iri", "http://n/p2"), ("lit", "2", None, "http://dt/n2")),
-        ("T", ("iri", "http://m/s3"), alpha.I_AY, ("iri", "http://m/o3"))],
+        # third statement: the first IRI written is the FIRST-interned name (table index 1), then an IRI with an empty prefix
+        ("T", alpha.B1, alpha.I_AX, alpha.I_URN)],
 }
 # variant "rep": consecutive statements share predicate, object and graph, so that a statement following a rejected
 # one elides those slots (what a stale remembered term / stale message field would corrupt)
@@ -38,7 +39,7 @@ class Weird:
 def failing_index(cause, slot, n):
     """index (in encoding order s,p,o,g) of the term at which the rejection strikes"""
     if cause == "arity":
-        return {"s": 1, "p": 2, "o": n - 1, "g": n - 1, "nested": 2}[slot]
+        return {"s": 0, "p": 1, "o": 2, "g": n - 1, "nested": 2}[slot]   # the first MISSING term ("s": an empty tuple)
     return {"s": 0, "p": 1, "o": 2, "g": 3, "nested": 2}[slot]
 
 
@@ -68,8 +69,8 @@ def make_bad(base, cause, slot, integ, phys, prev=None):
         k = failing_index(cause, slot, n)
         ts[:k] = list(prev[1:1 + k])
     if cause == "arity":
-        # too short by one term, cut after `slot` terms... the encoders pull terms one by one
-        keep = {"s": 1, "p": 2, "o": n - 1, "g": n - 1, "nested": 2}[slot]
+        # a tuple that is too short: cut before the term of `slot` (the encoders pull terms one by one)
+        keep = failing_index(cause, slot, n)
         return [conv(t) for t in ts[:keep]]
     if slot == "nested":
         if integ != "generic":
@@ -123,7 +124,7 @@ def fault(f: int, cause: int, slot: int, fs: int, rp: bool) -> bool:
         accepted = []
         side_effects = False
         expected = False
-        later_all_raise = True
+        later_calls = later_raised = 0
         prefix_ok = True
         faulted = False
 
@@ -186,12 +187,13 @@ def fault(f: int, cause: int, slot: int, fs: int, rp: bool) -> bool:
             try:
                 put(list(conv_item(it)))
                 accepted.append(it)
+                if faulted:
+                    later_calls += 1
             except Exception:  # noqa: BLE001
                 if not faulted:
                     return fin(M, False, f=f, cause=cause, slot=slot, fs=fs, rp=rp)
-            else:
-                if faulted:
-                    later_all_raise = False
+                later_calls += 1
+                later_raised += 1
         emit(stream.flow.to_stream_frame())
         with notrace():
             data = bytes(pj.write_frames(frames, True))
@@ -200,7 +202,9 @@ def fault(f: int, cause: int, slot: int, fs: int, rp: bool) -> bool:
                 clean = got == [norm_item(a) for a in accepted]
             except Exception:  # noqa: BLE001
                 clean = False
-        ok = prefix_ok and (clean or (later_all_raise and fpos < 2))
+        # "the stream refuses further use": there were later calls and every one of them raised
+        later_all_raise = faulted and later_calls > 0 and later_raised == later_calls
+        ok = prefix_ok and (clean or later_all_raise)
         if not ok and faulted and expected and known.is_open("C20-no-rollback") and prefix_ok and not P.get("ignore_known"):
             ok = True  # exactly the open known finding: a term before the failing one had already been encoded
         if P.get("twin"):
